@@ -262,6 +262,16 @@ theorem lines_cut_at_newline_only :
   ⟨by decide, fun s h => by simp [strLines, splitOn_no_sep _ s h], fun s => splitOn_mem_no_sep _ s,
    fun s => splitOn_join _ s⟩
 
+/-- **A parser object has no memory between `parse` calls** (model side): whatever calls were made before on the same
+constructed parser — accepted texts, texts that raise `ParsingError` — the result of a call is that of the call alone.
+In the model this holds by construction (`parseClean` is a function of the parser and the lexemes); it is a property of
+the real object only through the correspondence, which therefore issues call *sequences* on one parser object,
+including calls that fail in the tokenizer (unclosed multi-line comment, foreign character) before valid texts. -/
+theorem parse_has_no_memory (T : TParser) (fuel : Nat) (before : List (List (Name × List Char)))
+    (raw : List (Name × List Char)) :
+    ((before ++ [raw]).map fun r => T.parseClean r fuel).getLast? = some (T.parseClean raw fuel) := by
+  simp
+
 /-- **Squashing around container items.** A squashable symbol (all its rules have at most one symbol) that is not
 in `keep_symbols` disappears around a container item: cleaning `name[x]` with `for_container=True` is cleaning `x`
 (so chains such as `LIST_ITEM[VALUE[WORD]]` collapse to the innermost element, whose value becomes the entry). A kept
